@@ -93,7 +93,7 @@ def run(tier, seed):
             sup.append(("tablefold", T.render(b["hist"], seed, nm=T.name_map(seed + len(b["hist"]))) + "\n"))
     gr = c04.mc(c04.consts(WithHist="TRUE", Universe=c04.U1, MaxCreates=1, MaxStmts=3, Spells=c04.SS), "registry")
     rb = [b for b in gr.beh if not b["err"] and b["hist"]]
-    for b in (rb if thorough else rnd.sample(rb, min(len(rb), 500))):
+    for b in (rb if thorough else c04.stratified(rb, rnd, 500)):
         sup.append(("registry", R.render(b["hist"], seed)[0]))
     ge = EF.mc(EF.consts(WithHist="TRUE", MaxOpts=2, MaxStmts=2, Kinds=E.tla_kinds([k for k in E.CATALOG if k not in E.FINDING_TAG]), groups=["start", "cache", "order"]), "entities")
     eb = [b for b in ge.beh if b["hist"]]
